@@ -31,7 +31,8 @@ RULE = ("programs = (URL user-info or not, content type / user agent default or 
         "Content-Length x2, Authorization x2, one other) with pairwise distinct values of 5 kinds (quick: a seeded sample; "
         "thorough: all), every value of the value pool, random stacks of 3-4 dictionaries, every nesting of <= 3 blocks x "
         "every combination of normal/exceptional exits with a request after every event; a few programs against a loopback "
-        "HTTP peer. Non-trivial: at least one custom header in force at some request. Distinct by canonical hash.")
+        "HTTP peer. Non-trivial: at least one custom header in force at some request. Distinct by canonical hash."
+        ' Added after the seeded rounds: every 5th program is run again with the requests sent from a helper thread.')
 EXHAUSTIVE = "stacks of <= 2 dictionaries x <= 2 entries over the 13-name pool; nestings of <= 3 blocks x exit kinds (thorough tier)"
 TRUSTED = ["modelled, not verified: str() of values, ASCII lower-casing = str.lower() on ASCII names, dict.update / insertion order",
            "contextlib.contextmanager semantics (exception thrown into the generator at the yield)",
